@@ -107,11 +107,12 @@ BOXES = {
         "Controlled(X)", "Controlled(S)", "Controlled(Rz(0.3))", "Controlled(Z)", "Controlled(Rx(0.2))",
         "Controlled(S).dagger()",
         "QuantumGate('V', 1, [0.6, 0.8, -0.8, 0.6])", "QuantumGate('V', 1, [0.6, 0.8j, 0.8j, 0.6]).dagger()",
-        "QuantumGate('W', 2, list(range(16)))", "QuantumGate('V', 1, [0.6, 0.8, -0.8, 0.6], _dagger=True)",
+        "QuantumGate('W', 2, [1, 2j, 3, 4, 5, 6, 7j, 8, 9, 10, 11, 12, 13, 14, 15, 16])", "QuantumGate('V', 1, [0.6, 0.8, -0.8, 0.6], _dagger=True)",
         "Ket(0)", "Ket(1)", "Ket(1, 0)", "Ket()", "Bra(0)", "Bra(0, 1)", "Bra()",
         "Bits(1)", "Bits(0, 1)", "Bits()", "Bits(1).dagger()", "Bits(1, 0, _dagger=True)",
         "Digits(0, 2, dim=3)", "Digits(1, dim=4).dagger()", "Copy()", "Match()", "Copy().dagger()", "Match().dagger()",
-        "ClassicalGate('g', 2, 1, [0, 1, 1, 0, 1, 0, 0, 1])", "ClassicalGate('g', 1, 2, [0, 1, 1, 0, 1, 0, 0, 1]).dagger()",
+        "ClassicalGate('g', 2, 1, [0.9, 0.1, 0.3, 0.7, 0.2, 0.8, 0.6, 0.4])",
+        "ClassicalGate('g', 1, 2, [0.1, 0.2, 0.3, 0.4, 0.4, 0.3, 0.2, 0.1]).dagger()",
         "ClassicalGate('g', 0, 1, [0.5, 0.5])", "ClassicalGate('g', 1, 0, [1, 1])",
         "Measure()", "Measure(2)", "Measure(destructive=False)", "Measure(override_bits=True)",
         "Measure(2, destructive=False)", "Measure(2, override_bits=True)", "Measure(0)",
